@@ -167,6 +167,7 @@ func integ(rep *vh.Report) {
 		if m := maxOpen.Load(); m > int64(1+capN) {
 			rep.Violate("pool-integ-bound", fmt.Sprintf("the client had %d connections open at once with BlockingPoolSize %d (+1 pipelining connection)", m, capN), events)
 		}
+		doubleRelease(rep, client, srv, capN, round)
 		client.Close()
 		before := len(fnet.Dials())
 		if err := client.Do(context.Background(), client.B().Blpop().Key("x").Timeout(1).Build()).Error(); err == nil || len(fnet.Dials()) != before {
@@ -203,4 +204,74 @@ func (c *countedConn) Close() error {
 		c.open.Add(-1)
 	}
 	return c.Conn.Close()
+}
+
+// doubleRelease: a Dedicate() session whose release functions (cancel, cancel again, Close) overlap while the clean-up
+// round trip of the first one is still waiting for the server (replies held).  The connection must go back to the pool
+// exactly once: afterwards two concurrent dedicated sessions must never run on the same connection at the same time
+// (with pool size 1 they have to take turns).
+func doubleRelease(rep *vh.Report, client rueidis.Client, srv *fakeredis.Server, capN, round int) {
+	id := fmt.Sprintf("dr%d", round)
+	dc, cancel := client.Dedicate()
+	cctx, ccancel := context.WithCancel(context.Background())
+	dc.Do(cctx, dc.B().Get().Key("sess:"+id+":0").Build()) // a cancellable context switches the wire to pipelining
+	ccancel()
+	var sc *fakeredis.Conn
+	for _, c := range srv.Conns() {
+		for _, argv := range c.Log() {
+			if len(argv) == 2 && argv[1] == "sess:"+id+":0" {
+				sc = c
+			}
+		}
+	}
+	if sc == nil {
+		rep.Inconcl("doubleRelease: session connection not found")
+		return
+	}
+	dc.Do(context.Background(), dc.B().Get().Key("sess:"+id+":9").Build())
+	sc.HoldReplies(true)
+	var wg sync.WaitGroup
+	for i := 0; i < 3; i++ {
+		wg.Add(1)
+		go func(i int) {
+			defer wg.Done()
+			if i == 2 {
+				time.Sleep(5 * time.Millisecond)
+			}
+			cancel()
+		}(i)
+	}
+	time.Sleep(30 * time.Millisecond)
+	sc.HoldReplies(false)
+	done := make(chan struct{})
+	go func() { wg.Wait(); close(done) }()
+	select {
+	case <-done:
+	case <-time.After(10 * time.Second):
+		rep.Violate("pool-integ-release-hang", "releasing a dedicated client did not return within 10 s", nil)
+		return
+	}
+	if err := dc.Do(context.Background(), dc.B().Get().Key("x").Build()).Error(); err != rueidis.ErrDedicatedClientRecycled {
+		rep.Violate("pool-integ-use-after-release", fmt.Sprintf("a released dedicated client returned %v, want ErrDedicatedClientRecycled", err), nil)
+	}
+	// two overlapping sessions: the session monitor in the event sink reports any interleaving on one connection
+	var wg2 sync.WaitGroup
+	for j := 0; j < 2; j++ {
+		wg2.Add(1)
+		go func(j int) {
+			defer wg2.Done()
+			sid := fmt.Sprintf("%sx%d", id, j)
+			ctx, cancel := context.WithTimeout(context.Background(), 5*time.Second)
+			defer cancel()
+			_ = client.Dedicated(func(c rueidis.DedicatedClient) error {
+				c.Do(ctx, c.B().Watch().Key("sess:"+sid+":0").Build())
+				time.Sleep(15 * time.Millisecond)
+				c.Do(ctx, c.B().Get().Key("sess:"+sid+":1").Build())
+				time.Sleep(5 * time.Millisecond)
+				c.Do(ctx, c.B().Get().Key("sess:"+sid+":9").Build())
+				return nil
+			})
+		}(j)
+	}
+	wg2.Wait()
 }
